@@ -41,6 +41,11 @@ func (*inArray) Exit(node *Node) {
 					}
 
 				string:
+					if t == nil || t.Kind() != reflect.String {
+						// Same restriction as above: the lookup map is keyed by
+						// string, so the left side must be a string.
+						return
+					}
 					for _, a := range array.Nodes {
 						if _, ok := a.(*StringNode); !ok {
 							return
